@@ -45,6 +45,7 @@ def run(repo, chk, tier):
     one_value_per_row(repo, chk)
     multiex_rule(repo, chk)
     subfeature_rules(repo, chk)
+    shared_key_tables(repo, chk)
     target_control(repo, chk)
 
 
@@ -406,6 +407,36 @@ def multiex_rule(repo, chk):
         chk.bad('C11.3b', 'R15', fn.site(), "'1' if token in token_set(row) else ''", "the indicator is not computed by token-set membership per row (e.g. substring matching such as str.contains marks rows whose tokens merely contain the token)", soft=True)
     else:
         chk.expect(ok_mem, 'C11.3b', 'R15', fn.site(ifs[0]), ast.unparse(ifs[0].test), "'1' exactly on rows whose token set contains the token, '' otherwise", "the indicator must be '1' iff the token is a member of the row's token set (not a substring test), '' otherwise", soft=True)
+    # `token in <row string>`: the container of the membership test is an element of a list of raw (delimited) row strings, not of the list of
+    # token sets - a substring test.  Decided on the kinds of the local lists, whatever the shape of the surrounding code.
+    def _is_str_list(v):
+        if isinstance(v, ast.ListComp) and len(v.generators) == 1 and isinstance(v.generators[0].target, ast.Name):
+            g = v.generators[0].target.id
+            e = v.elt
+            while isinstance(e, ast.Call) and isinstance(e.func, ast.Attribute) and e.func.attr in ('replace', 'strip', 'lower', 'upper', 'lstrip', 'rstrip'):
+                e = e.func.value
+            if isinstance(e, ast.Call) and isinstance(e.func, ast.Name) and e.func.id == 'str' and e.args:
+                e = e.args[0]
+            return isinstance(e, ast.Name) and e.id == g
+        if isinstance(v, ast.Call) and isinstance(v.func, ast.Attribute) and v.func.attr in ('tolist', 'to_list'):
+            return True
+        return False
+    str_lists = {n.targets[0].id for n in own_nodes(fn.node) if isinstance(n, ast.Assign) and len(n.targets) == 1 and isinstance(n.targets[0], ast.Name) and _is_str_list(n.value)}
+    set_lists = {n.targets[0].id for n in own_nodes(fn.node) if isinstance(n, ast.Assign) and len(n.targets) == 1 and isinstance(n.targets[0], ast.Name) and isinstance(n.value, ast.ListComp)
+                 and isinstance(n.value.elt, ast.Call) and isinstance(n.value.elt.func, ast.Name) and n.value.elt.func.id in ('set', 'frozenset')}
+    str_lists -= set_lists
+    elem_of = {}
+    for n in own_nodes(fn.node):
+        if isinstance(n, (ast.For, ast.comprehension)):
+            it, tg = n.iter, n.target
+            if isinstance(it, ast.Call) and isinstance(it.func, ast.Name) and it.func.id == 'enumerate' and it.args and isinstance(tg, ast.Tuple) and len(tg.elts) == 2:
+                it, tg = it.args[0], tg.elts[1]
+            if isinstance(it, ast.Name) and isinstance(tg, ast.Name):
+                elem_of[tg.id] = it.id
+    for n in own_nodes(fn.node):
+        if isinstance(n, ast.Compare) and len(n.ops) == 1 and isinstance(n.ops[0], (ast.In, ast.NotIn)) and isinstance(n.comparators[0], ast.Name) and elem_of.get(n.comparators[0].id) in str_lists:
+            chk.bad('C11.3b', 'R15', fn.site(n), ast.unparse(n)[:100], f"the membership test is made against an element of `{elem_of[n.comparators[0].id]}`, the list of raw delimited row strings, not against the row's set of tokens: "
+                    "`token in 'ab-c'` is a substring test, so rows whose tokens merely contain the token are marked '1'")
     # a substring test on the raw delimited value is never token membership ('a' is in 'ab-c' but is not one of its tokens)
     for c in calls(fn, attr=('contains', 'find', 'count', 'startswith', 'endswith', 'match', 'search')):
         chk.bad('C11.3b', 'R15', fn.site(c), ast.unparse(c)[:120], "the indicator is computed by substring matching on the delimited value (e.g. str.contains): rows whose tokens merely contain the token as a substring are marked '1'; it must be membership in the row's token set")
@@ -445,6 +476,30 @@ def _fuse_comprehensions(t):
                 return x
             return (t[0], rep(t[1]), ((it[2][0][0], tuple(rep(c) for c in ifs)),))
     return t
+
+
+def shared_key_tables(repo, chk):
+    """C11.4m - a lookup table of compute_subfeatures that is filled, keyed by the bare loop variable, from loops over the values of DIFFERENT
+    columns has one key space for both: a value that occurs in both columns keeps only the entry written last, so what is looked up for the first
+    column is the second column's entry (rows are selected by the wrong column)."""
+    fn = repo.func(CR, 'compute_subfeatures')
+    par = parents(fn.node)
+    tables = {}
+    for n in own_nodes(fn.node):
+        if isinstance(n, ast.Assign) and len(n.targets) == 1 and isinstance(n.targets[0], ast.Subscript) and isinstance(n.targets[0].value, ast.Name) and isinstance(n.targets[0].slice, ast.Name):
+            lp = par.get(n)
+            while lp is not None and not isinstance(lp, ast.For):
+                lp = par.get(lp)
+            if lp is not None and isinstance(lp.target, ast.Name) and lp.target.id == n.targets[0].slice.id:
+                tables.setdefault(n.targets[0].value.id, []).append((lp, n))
+    for name, fills in tables.items():
+        its = {ast.unparse(lp.iter) for lp, _ in fills}
+        vals = {ast.unparse(n.value).replace(lp.target.id, '_') for lp, n in fills}
+        reads = [x for x in own_nodes(fn.node) if isinstance(x, ast.Subscript) and isinstance(x.ctx, ast.Load) and isinstance(x.value, ast.Name) and x.value.id == name]
+        if len(fills) >= 2 and len(its) >= 2 and len(vals) >= 2 and reads:
+            lp, n = fills[1]
+            chk.bad('C11.4m', 'R12', fn.site(n), ast.unparse(n).replace('\n', ' ')[:120], f'the table `{name}` is filled under the bare value from loops over {sorted(its)[0][:40]} and over {sorted(its)[1][:40]}, with different contents: '
+                    'a value that occurs in both columns keeps only the entry written last, so a look-up meant for the first column returns the second column\'s entry and rows are selected by the wrong column')
 
 
 def subfeature_rules(repo, chk):
@@ -541,6 +596,16 @@ def subfeature_rules(repo, chk):
         elif key not in want_key:
             chk.expect_term(key, want_key, oid, 'R5', site, show(key)[:140], '', f'the name of a sub-feature column must be {show(want_key[0])[:100]}; found {show(key)[:120]}')
         else:
+            # a requested value used as its own "is this side constrained" flag (`not v or x == v`): a falsy value - the empty string, the usual
+            # missing value - then matches every row.  Decided positively, whatever else the expression does.
+            from ..terms import walk_term as _wt
+            lvars = {('lvar', 0, 0), ('lvar', 1, 0)}
+            truthy = [x for x in _wt(val) if isinstance(x, tuple) and len(x) == 2 and x[0] == 'not' and x[1] in lvars]
+            truthy += [y for x in _wt(val) if isinstance(x, tuple) and len(x) == 2 and x[0] in ('or', 'and') and isinstance(x[1], tuple) for y in x[1] if y in lvars]
+            if truthy:
+                chk.bad(oid, 'R14', site, show(val)[:200], 'the value a row is compared with is also tested for truthiness in the selection (`not v or x == v`): for a falsy value - the empty string, i.e. the usual missing '
+                        "value - the comparison is skipped and EVERY row is selected, so the column is not the indicator / the joined value 'exactly on rows where the column has the given value'")
+                continue
             chk.expect_term(val, want_val[:6], oid, 'R15', site, show(val)[:200], '', f'the sub-feature column must be {show(want_val[0])[:200]}; found {show(val)[:260]}')
 
 
